@@ -7,6 +7,7 @@ import (
 	"encoding/json"
 	"fmt"
 	"math"
+	"reflect"
 	"sort"
 	"strings"
 	"sync"
@@ -231,6 +232,11 @@ func toTagged(v any, depth int) any {
 	if depth > 64 {
 		return Node{"t": "alien", "why": "cycle or depth > 64"}
 	}
+	p, ok := enter(v)
+	if !ok {
+		return Node{"t": "alien", "why": "cycle or depth > 64"}
+	}
+	defer leave(p)
 	switch x := v.(type) {
 	case nil:
 		return Node{"t": "null"}
@@ -350,10 +356,49 @@ func Equal(got, want any) bool {
 	return equal(got, want, 0)
 }
 
+// onPath guards against reference cycles in engine-produced values: a map that is being
+// compared further up the current path makes the values unequal (expected values are trees).
+var (
+	pathMu sync.Mutex
+	onPath = map[uintptr]int{}
+)
+
+func enter(v any) (uintptr, bool) {
+	m, ok := v.(map[string]any)
+	if !ok || m == nil {
+		return 0, true
+	}
+	p := reflect.ValueOf(m).Pointer()
+	pathMu.Lock()
+	defer pathMu.Unlock()
+	if onPath[p] > 0 {
+		return p, false
+	}
+	onPath[p]++
+	return p, true
+}
+
+func leave(p uintptr) {
+	if p == 0 {
+		return
+	}
+	pathMu.Lock()
+	onPath[p]--
+	if onPath[p] == 0 {
+		delete(onPath, p)
+	}
+	pathMu.Unlock()
+}
+
 func equal(got, want any, depth int) bool {
 	if depth > 64 {
 		return false
 	}
+	p, ok := enter(got)
+	if !ok {
+		return false
+	}
+	defer leave(p)
 	switch w := want.(type) {
 	case Opaque:
 		return w.matches(got)
@@ -427,10 +472,16 @@ func Canon(v any) string {
 }
 
 func canon(b *strings.Builder, v any, depth int) {
-	if depth > 64 {
+	if depth > 64 || b.Len() > 1<<16 {
 		b.WriteString("<cycle>")
 		return
 	}
+	p, ok := enter(v)
+	if !ok {
+		b.WriteString("<cycle>")
+		return
+	}
+	defer leave(p)
 	if f, ok := asFloat(v); ok {
 		n, d, ok := Rational(f)
 		if ok {
